@@ -141,6 +141,9 @@ def rules(t, u, hist_tbl):
     add("G6/unknown_in_on", "unknown column in join condition", (ValueError,), lambda: T >> pdt.join(u, pdt.C.nope == u.a, "inner"))
     add("G6/rename_unknown", "rename of an unknown column", (ValueError,), lambda: T >> pdt.rename({"nope": "x"}))
     add("G6/rename_hidden_col", "rename of a hidden column given as a Col", (E.ColumnNotFoundError, ValueError), lambda: T >> pdt.select(t.s) >> pdt.rename({t.a: "y"}))
+    add("G6/summarize_hidden_group_col", "summarize after the grouping column was deselected", (ValueError,), lambda: T >> pdt.group_by(t.a) >> pdt.select(t.s) >> pdt.summarize(n=pdt.count()))
+    add("G6/summarize_overwritten_group_col", "summarize after the grouping column was overwritten", (ValueError,), lambda: T >> pdt.group_by(t.a) >> pdt.mutate(a=t.a * 2, zz=t.a) >> pdt.summarize(n=pdt.count()))
+    add("G6/collect_hidden_group_col", "collect after the grouping column was deselected", (ValueError,), lambda: T >> pdt.group_by(t.a) >> pdt.select(t.s) >> pdt.collect())
     add("G6/group_by_hidden_col", "group_by of a hidden column", (ValueError, E.ColumnNotFoundError), lambda: T >> pdt.select(t.s) >> pdt.group_by(t.a))
     # G7 duplicate names
     add("G7/rename_collision", "rename onto an existing name", (ValueError,), lambda: T >> pdt.rename({"a": "s"}))
